@@ -93,9 +93,18 @@ class Form(object):
         return result_str(call("type_tostring", [call("form_type", [self._h]).h]))
 
 
+def _mkform(h):
+    """the full Form emulation (akshim.typesforms: VirtualForm.form, has_length, ...) when it is installed"""
+    try:
+        from akshim import typesforms as TF
+    except ImportError:
+        return Form(_h=h)
+    return TF.wrap_form(h)
+
+
 def form_of(layout, materialize=False):
     """Content::form(materialize) as a Form handle"""
-    return Form(_h=call("form", [layout._h], [int(bool(materialize))]).h)
+    return _mkform(call("form", [layout._h], [int(bool(materialize))]).h)
 
 
 def _form_handle(form, what):
@@ -109,7 +118,7 @@ def _form_handle(form, what):
 
 
 def _wrap_form(res):
-    return None if res.kind == core.K_NONE else Form(_h=res.h)
+    return None if res.kind == core.K_NONE else _mkform(res.h)
 
 
 def _length_arg(length, what):
@@ -436,11 +445,11 @@ class VirtualArray(L.Content):
 
     @property
     def form(self):
-        return Form(_h=call("form", [self._h], [0]).h)
+        return _mkform(call("form", [self._h], [0]).h)
 
     def form_materialized(self):
         """form(true): not exposed by the binding, used by the checks"""
-        return Form(_h=call("form", [self._h], [1]).h)
+        return _mkform(call("form", [self._h], [1]).h)
 
 
 # --------------------------------------------------------------------------- partitions
